@@ -50,7 +50,21 @@ type execT struct {
 // hxlib calls right after the case).
 var rawOuts = map[int]string{}
 
+// casesPerWorker: a worker is replaced after this many cases. Subscriptions that handleQsub leaves
+// registered when its query part fails, shadow-deleted records and the storages' own garbage accumulate
+// in a long-lived process and slow every write down; a fresh process and fresh database directories
+// keep a run's speed flat.
+const casesPerWorker = 400
+
+var casesOnWorker int
+
 func newExec(*hxlib.Run) hxlib.Exec {
+	casesOnWorker++
+	if casesOnWorker > casesPerWorker && theChild != nil && !theChild.dead {
+		theChild.stop()
+		theChild = nil
+		casesOnWorker = 0
+	}
 	c := ensureChild()
 	if out := c.call("reset", callTimeout); out != "ok" {
 		// a worker that cannot even reset is replaced once
